@@ -49,6 +49,9 @@ type c08Case struct {
 	// HookClose > 0: at the n-th hit of the yield point in conn.send (response about to be handed to the
 	// write loop) the client end of that connection is closed and the teardown is allowed to complete.
 	HookClose int `json:"hook_close_at,omitempty"`
+	// CloseErrors: Close() of the connections the server accepts reports an error after closing (as a TLS connection
+	// does when its close_notify cannot be written to a peer that is gone): an ended connection is an ended connection
+	CloseErrors bool `json:"accepted_connections_report_close_errors,omitempty"`
 }
 
 // ---------------------------------------------------------------------------
@@ -355,6 +358,9 @@ func c08Bubble(c c08Case) (res c08Result) {
 		return c08Result{sig, fmt.Errorf(format, a...)}
 	}
 	ln := memnet.NewListener()
+	if c.CloseErrors {
+		ln.ServerCloseErr = errors.New("memnet: close: broken pipe while sending the closing alert")
+	}
 	var rejectNext atomic.Bool
 	exec := c08Executor()
 	srv := kmipserver.NewServer(ln, exec).WithConnectHook(func(ctx context.Context) (context.Context, error) {
@@ -733,6 +739,7 @@ func drawOutcomes(rt *rapid.T) []string {
 
 func drawC08(rt *rapid.T) c08Case {
 	var c c08Case
+	c.CloseErrors = rapid.IntRange(0, 3).Draw(rt, "close-errors") == 0
 	nconn := rapid.IntRange(1, 4).Draw(rt, "connections")
 	nsteps := rapid.IntRange(2, 18).Draw(rt, "steps")
 	for i := 0; i < nconn; i++ {
@@ -833,7 +840,7 @@ func c08NonTrivial(c c08Case) bool {
 
 func TestC08Availability(t *testing.T) {
 	const name = "TestC08Availability"
-	rec := evid.New("C08", name, "state-machine scripts over 1..4+ client connections (some refused by the server's connect hook) to a real kmipserver.Server on an in-memory listener inside a testing/synctest bubble (fake clock, quiescence detection): connect, whole request (1..3 items with outcomes ok / typed error / plain error (errors.New, a nil pointer in an error interface, an error whose Error method panics) / panic with string|error|int|Stringer|nil|slice|map|func|slice-typed error|struct holding a slice|pointer|NaN|run-time error|an error or Stringer whose method panics, a nil pointer in an error interface / slow honouring or ignoring its context), "+
+	rec := evid.New("C08", name, "state-machine scripts over 1..4+ client connections (some refused by the server's connect hook) to a real kmipserver.Server on an in-memory listener (in a quarter of the cases the accepted connections report an error from Close, as TLS connections to a vanished peer do) inside a testing/synctest bubble (fake clock, quiescence detection): connect, whole request (1..3 items with outcomes ok / typed error / plain error (errors.New, a nil pointer in an error interface, an error whose Error method panics) / panic with string|error|int|Stringer|nil|slice|map|func|slice-typed error|struct holding a slice|pointer|NaN|run-time error|an error or Stringer whose method panics, a nil pointer in an error interface / slow honouring or ignoring its context), "+
 		"pipelined requests, partial message + completion, garbage (random bytes, oversize announcement, nonsense frame, truncated request), correctly framed but undecodable message (9 kinds), half close, close (also while a handler or a response write is in progress), stalled reader, and closing exactly when the response is about to be handed to the write loop (yield-point hook); "+
 		"after every step: responses match the model one-to-one and in order, census of accept/handleConn/readloop/writeloop goroutines never exceeds the number of live connections (per loop kind), a probe connection is served; at the end nothing remains; "+
 		"non-trivial = >= 2 connections and >= 1 fault; distinct by script").Attach(t)
